@@ -139,9 +139,13 @@ def main(seed, ncases, driver, out):
                     x = x[index] if isinstance(x, BlockSeries) else x
                     return zero if x is zero else x * (c1 + c2 * (index[0] + 2 * index[1]))
                 return fn
+            def half(x, index):
+                x = x[index] if isinstance(x, BlockSeries) else x
+                if x is one: return one          # (the harness's own scope function, as the model's: the identity sentinel passes unchanged)
+                return zero if x is zero else x * 0.5
             scope = {k_: wrap(*v) for k_, v in FNS.items()}
             scope.update({"flag_a": flag_a, "flags_b": flags_b, "diag": lambda x, index: (x[index] if isinstance(x, BlockSeries) else x),
-                          "offdiag": (lambda x, index: (lambda y: zero if y is zero else y * 0.5)(x[index] if isinstance(x, BlockSeries) else x)) if use_offdiag else None,
+                          "offdiag": half if use_offdiag else None,
                           "use_linear_operator": np.zeros((N, N), dtype=bool)})
             H = BlockSeries(data=dict(data), shape=(N, N), n_infinite=1, name="H")
             spec = importlib.util.spec_from_file_location(fname, path); mod = importlib.util.module_from_spec(spec); spec.loader.exec_module(mod)
